@@ -374,6 +374,15 @@ func (c14Engine) Exec(t *testing.T, cc any) *simrt.Result {
 				} else if df := c14Diff(Q0, q); df != "" {
 					fail("not-atomic", map[string]string{"at": "cancel-" + pointKind(what)}, "batch cancelled before driver call %s (%d of %d) but an answer differs from before the batch: %s", what, k, N, df)
 				}
+				// retry after the cancelled attempt (database/sql may have discarded
+				// the connection the attempt ran on)
+				if err := dc.insert(bg, batch); err != nil {
+					fail("retry-fails", map[string]string{"at": "cancel-" + pointKind(what)}, "retry after a batch cancelled before %s failed: %v", what, err)
+				} else if q, err := c14Ask(dc, probes); err == nil {
+					if df := c14Diff(Q1, q); df != "" {
+						fail("not-idempotent", map[string]string{"after": "cancel"}, "cancelled before %s then succeed gives other answers than a single successful insertion: %s", what, df)
+					}
+				}
 			} else if q, qerr := c14Ask(dc, probes); qerr == nil {
 				if df := c14Diff(Q1, q); df != "" {
 					fail("not-atomic", map[string]string{"at": "cancel-" + pointKind(what)}, "batch reported success although cancelled before %s, and answers are not those of a successful insertion: %s", what, df)
